@@ -346,3 +346,16 @@ Section OpenProofs.
       rewrite Nat2N.inj_succ, N.pow_succ_r'. lia.
   Qed.
 End OpenProofs.
+
+(** a backup copy carries the snapshot's meta in slot 0 and the same meta with txid-1 in slot 1: Open presents slot 0 *)
+Theorem backup_meta0_wins rd flen dps ps :
+  page_size_model rd flen dps (validate_at rd page_header_size) = Some ps -> 2 * ps <= flen ->
+  valid0 rd -> valid1 rd ps -> 1 <= m_txid (meta0 rd) -> m_txid (meta1 rd ps) = m_txid (meta0 rd) - 1 ->
+  m_mark (meta0 rd) * ps <= flen ->
+  open_model rd flen dps = OpenOk ps (meta0 rd).
+Proof.
+  intros HP HL V0 V1 H1 Ht HM.
+  pose proof (open_prefers_newer rd flen dps ps HP HL V0 V1) as H. cbv zeta in H.
+  destruct (N.ltb_spec (m_txid (meta0 rd)) (m_txid (meta1 rd ps))) as [Hlt|Hge]; [lia|].
+  apply H. exact HM.
+Qed.
